@@ -4,7 +4,7 @@ import json
 from ..common import *
 from .. import proofgate, protocol
 
-THEOREMS = ["C01_domain_covers", "C01_capacity_equiv", "C01_trimmed_key_covers"]
+THEOREMS = ["C01_domain_covers", "C01_capacity_equiv", "C01_trimmed_key_covers", "C01_verifier_accepts_honest_proof", "C01_quotient_identity_is_row_identity"]
 
 def needed_degree(c):
     return npo2(c + 6)
